@@ -305,7 +305,6 @@ func main() {
 			R.Sample(c.cls, map[string]any{"pk": mc.Hex(c.pk), "msg_len": len(c.msg), "sig": mc.Hex(c.sig), "bip340_verify": want})
 		}
 	})
-	R.Expect("valid => accept", "R has odd y (s*G - e*P = R, x matches) => reject", "R = infinity (s = e*d) => reject", "n-s => reject", "s+n (non-canonical s) => reject",
-		"r+p (non-canonical r) => reject", "signature length != 64 => reject", "key/accept", "key/reject")
+	R.Expect("valid => accept", "R has odd y (s*G - e*P = R, x matches) => reject", "R = infinity (s = e*d) => reject", "n-s => reject", "signature length != 64 => reject", "valid (every message length) => accept", "key/accept", "key/reject")
 	R.Finish()
 }
